@@ -1,8 +1,52 @@
 """Which rules decide which property (see DESIGN.md section 5)."""
 from . import rules_conc as conc
 from . import rules_effects as fx
+from . import rules_live as live
 
 PROPERTIES = {
+    'C01': {
+        'rules': [live.rule_guard_live_all],
+        'explanation': 'Path-sensitive abstract interpretation of the 6 lookups (get / contains_key / Iter::next of both caches): on '
+                       'every path that returns a hit, the entry that is returned was checked against ttl, tti and (sync) the '
+                       'invalidate_all watermark with the exact comparison operators and operand roles.',
+        'decides': 'every lookup path re-checks full liveness on the entry it returns',
+        'does_not_decide': 'HashMap/DashMap lookup correctness; that the latest insert wins under concurrency (C02)',
+    },
+    'C05': {
+        'rules': [live.rule_guard_live_ttl],
+        'explanation': 'Every hit path of the 6 lookups establishes last_modified + time_to_live <= now == false (inclusive boundary) '
+                       'on the returned entry with `now` read from the clock in the same call.',
+        'decides': 'the inclusive ttl boundary test is applied by every lookup to the returned entry',
+        'does_not_decide': 'clock monotonicity; DashMap guard atomicity between an update and a concurrent read',
+    },
+    'C06': {
+        'rules': [live.rule_guard_live_tti, fx.rule_pure_observers],
+        'explanation': 'Every hit path of the 6 lookups establishes last_accessed + time_to_idle <= now == false (inclusive) on the '
+                       'returned entry; contains_key / iteration have no write effect on any timestamp store.',
+        'decides': 'the inclusive tti boundary test is applied by every lookup; observers cannot extend the idle deadline',
+        'does_not_decide': 'clock monotonicity; concurrent visibility',
+    },
+    'C07': {
+        'rules': [live.rule_guard_live_va],
+        'explanation': 'Every hit path of the 3 sync lookups establishes ts < valid_after == false (strict) for both timestamp stores of '
+                       'the returned entry.',
+        'decides': 'the watermark comparison is strict and applied by every sync lookup',
+        'does_not_decide': 'per-schedule visibility between an invalidating thread and readers',
+    },
+    'C16': {
+        'rules': [live.rule_guard_live_all],
+        'explanation': 'Both Iter::next implementations yield an item only on paths where the full liveness predicate of that very '
+                       'item is false.',
+        'decides': 'iteration never yields an expired / invalidated entry; the filter is exactly the liveness predicate',
+        'does_not_decide': "DashMap's iteration guarantees under concurrent writers",
+    },
+    'C03': {
+        'rules': [live.rule_miss_reasons],
+        'explanation': 'Every miss path of the 6 lookups is explained by key-absent / iterator-exhausted or a true expiry / watermark '
+                       'comparison on that entry.',
+        'decides': 'lookups hide an existing entry only for expiry or invalidation',
+        'does_not_decide': 'map correctness; quiescent behaviour after real multi-thread runs',
+    },
     'C15': {
         'rules': [fx.rule_pure_observers],
         'explanation': 'May-effect analysis over the whole call graph from every observer entry point (contains_key, iter, '
